@@ -59,6 +59,7 @@ def run(R):
     r2_quoted(R)
     r3(R)
     r4_union(R)
+    r5_translation(R)
 
 
 def _field_of_ref(body, op, adt):
@@ -304,6 +305,100 @@ def _qt_start(b, op):
     if b.derived and ("serde" in b.key or "Deserialize" in b.pretty or "__Visitor" in b.pretty):
         return True, "is deserialised"
     return False, "has an origin the checker does not recognise"
+
+
+def _sources(b, op, seen=None, depth=0):
+    """terminal sources of a value, following every definition of multi-definition locals:
+    ('call', Call) | ('param', local) | ('const', op) | ('other', text)"""
+    seen = seen if seen is not None else set()
+    pl = F.op_place(op)
+    if pl is None:
+        return {("const", str(op.get("d") or op.get("v")))}
+    l = pl["l"]
+    if l in seen or depth > 25:
+        return set()
+    seen = seen | {l}
+    out = set()
+    ds = b.defs().get(l, [])
+    if not ds:
+        return {("other", "undefined _%d" % l)}
+    for d in ds:
+        if d[0] == "arg":
+            out.add(("param", l))
+        elif d[0] == "call":
+            c = d[2]
+            if c.name() in ("deref", "clone", "borrow", "unwrap", "expect", "unwrap_or_else", "copied", "cloned", "into", "from") and c.args:
+                out |= _sources(b, c.args[0], seen, depth + 1)
+            else:
+                out.add(("call", c))
+        elif d[0] == "assign":
+            rv = d[3]
+            if rv["rv"] in ("use", "cast"):
+                out |= _sources(b, rv["op"], seen, depth + 1)
+            elif rv["rv"] == "ref":
+                out |= _sources(b, {"k": "copy", "pl": rv["pl"]}, seen, depth + 1)
+            else:
+                out.add(("other", rv["rv"]))
+    return out
+
+
+def r5_translation(R):
+    R.rule("C15-R5", "translation provenance: every identifier that reencode_term_id returns or records in its translation cache is a "
+                     "cache hit, the target dictionary's encoding of the decoded source term, or the target store's encoding of the "
+                     "recursively translated components - never an identifier of the source database itself")
+    b = R.body("C15-R5", "sparql_database::reencode_term_id", crate="kolibrie")
+    if b is None:
+        return
+    R.saw(b)
+    fam = R.prog.family(b.key)
+
+    def judge(x, op, what, ln):
+        src = _sources(x, op)
+        bad = []
+        for k, v in sorted(src, key=str):
+            if k == "call":
+                c = v
+                nm = c.name()
+                if nm == "get" and "HashMap" in (c.pretty or ""):
+                    continue
+                if nm == "encode" and "Dictionary" in (c.pretty or ""):
+                    inner = _sources(x, c.args[1]) if len(c.args) > 1 else set()
+                    if inner and all(k2 == "call" and v2.name() == "decode" for k2, v2 in inner):
+                        continue
+                    bad.append("Dictionary::encode of something other than the decoded source term")
+                    continue
+                if nm == "encode" and "QuotedTripleStore" in (c.pretty or ""):
+                    comp_ok = len(c.args) == 4
+                    for a in c.args[1:]:
+                        inner = _sources(x, a)
+                        if not inner or not all(k2 == "call" and v2.name() == "reencode_term_id" for k2, v2 in inner):
+                            comp_ok = False
+                    if comp_ok:
+                        continue
+                    bad.append("QuotedTripleStore::encode of components that were not all translated recursively")
+                    continue
+                bad.append("result of %s" % nm)
+            elif k == "param":
+                bad.append("the source identifier `%s` itself" % (x.local_name(v) or "_%d" % v))
+            else:
+                bad.append("%s %s" % (k, v))
+        R.ob("C15-R5", what, "reencode_term_id: the %s comes only from the cache, Dictionary::encode(decoded term) or "
+             "QuotedTripleStore::encode(translated components)" % what.split(":")[0], not bad, where=x.where(ln),
+             detail=None if not bad else "found: %s - identifiers are local to the database that issued them" % "; ".join(sorted(set(bad))))
+
+    nret = nins = 0
+    for x in fam:
+        if x.key == b.key:
+            for bb, i, pl, rv, s in x.assigns():
+                if pl["l"] == 0 and not pl["p"] and rv["rv"] in ("use", "cast"):
+                    nret += 1
+                    judge(x, rv["op"], "returned value:%d" % nret, s["ln"])
+        for c in x.calls():
+            if c.name() == "insert" and "HashMap" in (c.pretty or "") and len(c.args) == 3:
+                nins += 1
+                judge(x, c.args[2], "cached translation:%d" % nins, c.ln)
+    R.floor("C15-R5", "return sites of reencode_term_id", nret, 2)
+    R.floor("C15-R5", "translation-cache insertions", nins, 1)
 
 
 def r4_union(R):
